@@ -578,12 +578,13 @@ const handRuleSDL = `
 directive @rep repeatable on FIELD
 directive @once on FIELD
 directive @fd(x: Int) on FRAGMENT_DEFINITION | FIELD
-type Query { f(i: Int, l: [Int], ll: [[Int]], lln: [[Int]!], o: In, req: Int! = 5, nn: Int!): Int g(lnn: [Int!]!): Int  a: A  b: B  u: U  i: I  s: String  e(v: E): E any(x: Any): Any one(x: One): Int num(fl: Float, id: ID, fls: [Float], o: Num): Int cc: C lo(os: [In!], oo: In2, ooo: [[In2]]): Int anyn(x: Any!, l: [Any!], o: AnyIn): Int wd(ids: [Int!] = [1, 2], o: InD, nn: [Int!]): Int wide(w: Wide, a0: Int, a1: Int, a2: Int): Int }
+type Query { en(v: E!, vs: [E!], o: EnIn): Int f(i: Int, l: [Int], ll: [[Int]], lln: [[Int]!], o: In, req: Int! = 5, nn: Int!): Int g(lnn: [Int!]!): Int  a: A  b: B  u: U  i: I  s: String  e(v: E): E any(x: Any): Any one(x: One): Int num(fl: Float, id: ID, fls: [Float], o: Num): Int cc: C lo(os: [In!], oo: In2, ooo: [[In2]]): Int anyn(x: Any!, l: [Any!], o: AnyIn): Int wd(ids: [Int!] = [1, 2], o: InD, nn: [Int!]): Int wide(w: Wide, a0: Int, a1: Int, a2: Int): Int }
 interface I { x: Int }
 type A implements I { x: Int  z: Int  o: B  li: [Int]  lin: [Int]!  n: Int!  p: C }
 type B implements I { x: Int y: Int  z: String li: [Int]!  o: Int n: Int  p: C }
 type C { c: Int d: Int j(a: Int): Int }
 input Num { fl: Float id: ID }
+input EnIn { layers: [E!]! one: E! }
 input In2 { inner: [In] one: In }
 input AnyIn { from: Any! to: Any }
 input InD { tags: [String!] = ["a"] plain: [String!] }
@@ -602,6 +603,11 @@ type Mutation { m: Int }
 `
 
 var handRuleDocs = []string{
+	// a string where a WRAPPED enum is expected (non-null, item of a list, inside an input object)
+	`{ en(v: "RED") }`, `{ en(v: RED, vs: [RED, "GREEN"]) }`, `{ en(v: GREEN, o: {layers: ["""GREEN"""], one: "RED"}) }`, `{ en(v: 1, vs: [true]) }`,
+	// one variable used twice: first where its type does not fit (the message quotes the type), then where a default
+	// makes a nullable type fit a non-null position
+	`query Q($a: Int = 1) { x: f(nn: 1, l: $a) y: f(nn: $a) }`, `query Q($a: Int = 1) { y: f(nn: $a) x: f(nn: 1, l: $a) }`, `query Q($a: [Int] = [1]) { x: f(nn: 1, i: $a) y: g(lnn: $a) }`,
 	// control characters, DEL and a no-break space inside a string given for an enum (quoted back in the message)
 	"{ e(v: \"RE\\u0007D\") }", "{ e(v: \"R\\u0001D\") }", "{ e(v: \"GREEN\\u00a0\") }", "{ e(v: \"RED\\u007f\") }", "{ e(v: \"RE\u00a0D\") }", "{ e(v: \"\"\"RE\u007fD\"\"\") }",
 	// several unknown arguments on one field and on one directive
